@@ -3,7 +3,7 @@ from . import wl_roundtrip
 
 PROPERTY = "C11"
 LEVEL = "exploration"
-SCENARIOS = {"boundary": 1}
+SCENARIOS = {"boundary": 3, "groups": 1}
 TIERS = {"quick": {"runs": 3000, "chunk": 40}, "thorough": {"runs": 200000, "chunk": 200}}
 RULE = ("every frame handed to the simulated transport in the C12 workload (sizes biased "
         "so frames land at MAXSIZE-k..MAXSIZE+k and at 14/15/16 datagrams) is parsed by an "
@@ -15,10 +15,15 @@ COMPONENTS = {
     "real": ["ebpfcat.ethercat.Packet.append/assemble", "EtherCat.sendloop batching"],
     "stub": ["event loop", "socket", "wire", "terminals", "independent frame parser (oracle)"]}
 ASSUMPTIONS = ["maximum EtherCAT payload taken as 1500 bytes, minimum Ethernet frame 60 bytes"]
-MINE = {"frame-malformed", "frame-position-mismatch"}
+MINE = {"frame-malformed", "frame-position-mismatch", "sterile-differs"}
 
 
 def run(tape, scenario):
+    if scenario == "groups":
+        # frames (incl. sterile copies) assembled by sync groups in the C18 simulation
+        from . import c18
+        return c18.run(tape, tape.pick("c11/c18-scenario", ["multi-group", "one-group", "aerotech"]),
+                       want_c11=True)
     res = wl_roundtrip.run_workload(tape, faults=False, fmt_args=False,
                                     oversize=False, cancels=False)
     return wl_roundtrip.attribute(res, MINE)
